@@ -274,6 +274,7 @@ func buildEvidence(eng *engine, id, tier string, seed int, units []*unit, jobs, 
 	cv["vacuity_covers_run"] = nc
 	cv["vacuity_covers_satisfiable"] = ncOK
 	cv["deep_obligations_skipped_in_this_tier"] = skippedDeep
+	cv["returns_unreachable_under_precondition"] = deadReturnsGlobal
 	var kl []string
 	for _, k := range sortedKeys(known) {
 		kl = append(kl, known[k].Obligation+": "+known[k].What)
